@@ -10,12 +10,13 @@ from fractions import Fraction
 from harness import common as C
 from harness import fw
 from harness import c02_fngen as FG
+from harness import c02_ctl as CT
 from harness import pyast_wire as W
 
 META = {
     "id": "C02",
-    "technique": "Coq proof (soundness of a line-by-line model of _infer_expr_type w.r.t. the reference Python expression semantics, by induction over expressions and over nested list comprehensions with their var_types bracket; join / declaration / hoisting / signature-alias lemmas; refutation witnesses by vm_compute) + extracted-model correspondence with the real _infer_expr_type/_cpp_type/_merge_* and with the declaration lines of the emitted C++ + firmware-vs-CPython value oracle",
-    "level_text": "Theorems C02_* (coq/Props/C02.v) are proved for all expressions / assignment sequences about Gallina models (coq/Lang/Infer.v, Decl.v) of the type-label layer of transpile/parser.py; _partial theorems carry an executable guard, each guard clause has a _refuted witness. The models are run against the real functions (direct calls, exact label and mutated var_types) and against the declared C types in the emitted sketch; the property itself is tested on compiled firmware (mock core) against CPython for programs inside the guard.",
+    "technique": "Coq proof (soundness of a line-by-line model of _infer_expr_type w.r.t. the reference Python expression semantics, by induction over expressions and over nested list comprehensions with their var_types bracket; join / declaration / hoisting / signature-alias lemmas; a reference statement semantics with a path oracle and, by mutual induction over statements / blocks / branches, the covering theorem for if / elif / else, while, for, tuple assignment, the main loop and function bodies under an executable fixed-point guard; refutation witnesses by vm_compute) + extracted-model correspondence with the real _infer_expr_type/_cpp_type/_merge_* and with the declaration lines of the emitted C++ + firmware-vs-CPython value oracle",
+    "level_text": "Theorems C02_* (coq/Props/C02.v) are proved for all expressions, all statement trees (if / elif / else, while, for, tuple assignment, returns at any depth), all paths (every oracle of branch choices and loop counts) and all parser states about Gallina models (coq/Lang/Infer.v, Decl.v, StmtRef.v) of the type-label layer of transpile/parser.py; _partial theorems carry an executable guard, each guard clause has a _refuted witness. The models are run against the real functions (direct calls, exact label and mutated var_types) and against the declared C types in the emitted sketch; the property itself is tested on compiled firmware (mock core) against CPython for programs inside the guard.",
     "level_note": "Trusted: Coq kernel, extraction (ExtrOcamlBasic), OCaml driver, translator plug-in harness/gen/c02_infer.py (builtin call table), harness codecs, g++ and the mock Arduino core as 'device', CPython 3.12 as 'Python', PySem.v as the reference expression semantics (validated against CPython's eval). The theorems are about the models; the correspondence bounds their distance from parser.py.",
     "design_ref": "DESIGN.md section 4 C02, Appendix B.1-B.4",
 }
@@ -515,6 +516,8 @@ def wire_block(stmts):
             out.append([4, st[1], wire_block(st[3])])
         elif k == "return":
             out.append([5] if st[1] is None else [5, W.enc_src(st[1])])
+        elif k == "tassign":
+            out.append([7, list(st[1]), [W.enc_src(x) for x in st[2]]])
         elif k == "write":
             pass                                   # no typing effect
         else:
@@ -588,7 +591,7 @@ class TypGen:
     def block(self, depth, names, in_fn, n=None):
         rng = self.rng
         out = []
-        calls = not in_fn                 # calls to user functions from inside function bodies are not modelled
+        calls = True                      # incl. calls from inside function bodies: earlier / later helpers, itself (recursion)
         for _ in range(n if n is not None else rng.choice([1, 2, 2, 3])):
             r = rng.random()
             if depth > 0 and r < 0.22:
@@ -606,6 +609,14 @@ class TypGen:
                 out.append(("assignc", rng.choice(["L1", "L1", "L2"]), t, rng.choice(["3", "2", "a"]), self.expr(rng.choice([0, 1, 1]), names + [t, t], calls)))
             elif in_fn and r < 0.58:
                 out.append(("return", None if rng.random() < 0.12 else self.expr(2, names, calls)))
+            elif r < 0.66:                                   # tuple assignment: new and old names, swaps, an extra value
+                k = rng.choice([2, 2, 3])
+                tnames = [rng.choice(names + ["m", "n"]) for _ in range(k)]
+                vals = [self.expr(rng.choice([0, 1, 1]), names, calls) for _ in range(k + (rng.random() < 0.1))]
+                if rng.random() < 0.2 and len(names) >= 2:
+                    tnames = rng.sample(names, 2)
+                    vals = list(reversed(tnames))
+                out.append(("tassign", tnames, vals))
             else:
                 out.append(("assign", rng.choice(names), self.expr(rng.choice([0, 1, 2, 2]), names, calls)))
         return out
@@ -683,6 +694,23 @@ FIXED_PROGRAMS = [
     [("def", "f", ["count", "limit"], [("if", [("count < 0", [("return", "False")])], None), ("if", [("count >= limit", [("return", "True")])], None),
                                        ("return", "count + 1")]),
      ("stmt", ("assign", "a", "f(3, 10)")), ("stmt", ("assign", "x", "2.5")), ("stmt", ("assign", "b", "f(x, 10)")), ("stmt", ("assign", "c", "f(True, 1)"))],
+    # helpers calling helpers: an earlier helper under a new signature (variant parsed on demand inside the caller's body),
+    # a later helper (no source yet), itself (recursion: _refreshing_functions), a chain of three
+    [("def", "f", ["p"], [("return", "p")]), ("def", "g", ["p"], [("return", "f(p) + f(p)")]),
+     ("stmt", ("assign", "x", "2.5")), ("stmt", ("assign", "a", "g(x)")), ("stmt", ("assign", "b", "g(3)"))],
+    [("def", "g", ["p"], [("assign", "z", "f(p)"), ("return", "z")]), ("def", "f", ["p"], [("return", "p * 0.5")]),
+     ("stmt", ("assign", "a", "g(1)")), ("stmt", ("assign", "b", "g(2.5)"))],
+    [("def", "f", ["p"], [("if", [("p > 0", [("return", "f(p - 1)")])], None), ("return", "p * 0.5")]),
+     ("stmt", ("assign", "a", "f(3)")), ("stmt", ("assign", "b", "f(2.5)"))],
+    [("def", "f", ["p"], [("return", "p")]), ("def", "g", ["p", "q"], [("assign", "w", "f(q)"), ("return", "w + f(p)")]),
+     ("def", "h", ["p"], [("for", "i", "2", [("assign", "z", "g(p, i)")]), ("return", "g(p, 0.5)")]),
+     ("stmt", ("assign", "s", "'x'")), ("stmt", ("assign", "a", "h(1)")), ("stmt", ("assign", "b", "h(2.5)")), ("stmt", ("assign", "c", "f(s)"))],
+    # tuple assignments: all-new names at column 0 (globals, no temporaries), a swap, mixed new/old, inside a block,
+    # in a def, in the main loop, one name twice
+    [("stmt", ("tassign", ["a", "b", "s"], ["1", "2.5", "'x'"])), ("stmt", ("tassign", ["a", "b"], ["b", "a"])),
+     ("stmt", ("tassign", ["a", "c"], ["a + 1", "a * 0.5"])), ("stmt", ("if", [("a > 0", [("tassign", ["d", "e"], ["True", "b"])])], None)),
+     ("def", "f", ["p"], [("tassign", ["z", "w"], ["p", "p * 0.5"]), ("tassign", ["z", "w"], ["w", "z"]), ("return", "z")]),
+     ("stmt", ("assign", "u", "f(1)")), ("loop", [("tassign", ["r", "t"], ["a", "2.5"]), ("tassign", ["r", "r"], ["1", "2"])])],
     [("stmt", ("if", [("1 > 0", [("assign", "g", "1.5")])], [("assign", "g", "0.5")])),
      ("def", "f", ["v"], [("if", [("v > 1", [("assign", "r", "v * 2")])], [("assign", "r", "v")]), ("return", "r")]),
      ("stmt", ("assign", "n", "3")), ("stmt", ("assign", "x", "1.25")), ("stmt", ("assign", "a", "f(n)")), ("stmt", ("assign", "b", "f(x)")),
@@ -692,6 +720,11 @@ FIXED_PROGRAMS = [
 
 def norm_decls(l):
     return sorted([str(n), str(t)] for n, t in l)
+
+
+def norm_set(l):
+    """globals as a set of (name, type): the emitter drops a global declaration line identical to an earlier one"""
+    return sorted([n, t] for n, t in {(str(n), str(t)) for n, t in l})
 
 
 def part_b(ctx, stats):
@@ -727,19 +760,31 @@ def part_b(ctx, stats):
         fw_funcs = [f for f in r["funcs"] if f["name"] in user]
         fw_setup = [f for f in r["funcs"] if f["name"] == "setup"]
         fw_loop = [f for f in r["funcs"] if f["name"] == "loop"]
+        def split_tmps(locs):
+            """tuple-assignment temporaries (`__tmp_assign_k`) are compared by the multiset of their C types"""
+            named = [x for x in locs if not str(x[0]).startswith("__tmp_assign_")]
+            return named, sorted(str(x[1]) for x in locs if str(x[0]).startswith("__tmp_assign_"))
+        s_named, s_tmps = split_tmps(fw_setup[0]["locals"]) if fw_setup else ([], [])
+        l_named, l_tmps = split_tmps(fw_loop[0]["locals"]) if fw_loop else ([], [])
         got = {
-            "globals": norm_decls(r["globals"]),
-            "setup_locals": norm_decls(fw_setup[0]["locals"]) if fw_setup else [],
-            "loop_locals": norm_decls(fw_loop[0]["locals"]) if fw_loop else [],
-            "functions": sorted([f["name"], f["ret"], [list(x) for x in (f["params"] or [])], norm_decls(f["locals"])] for f in fw_funcs),
+            # a NEW name declared at column 0 by a tuple assignment that also re-assigns an old one is emitted as a local of
+            # setup() (its scope is C05/C06's subject); the model lists every column-0 declaration in p_globals
+            "globals": norm_set(list(r["globals"]) + list(s_named)),
+            "setup_locals": [],
+            "loop_locals": norm_decls(l_named),
+            "functions": sorted([f["name"], f["ret"], [list(x) for x in (f["params"] or [])], norm_decls(split_tmps(f["locals"])[0]),
+                                 split_tmps(f["locals"])[1]] for f in fw_funcs),
+            "tuple_temporaries": sorted(s_tmps + l_tmps),
         }
         exp = {
-            "globals": norm_decls([(C.wstr(x), dec_ctype(t)) for x, t in m[1]]),
+            "globals": norm_set([(C.wstr(x), dec_ctype(t)) for x, t in m[1]]),
             "setup_locals": [],
             "loop_locals": norm_decls([(C.wstr(x), dec_ctype(t)) for x, t in m[2]]),
             "functions": sorted([C.wstr(f[0]), dec_ctype(f[1]), [[C.wstr(x), dec_ctype(t)] for x, t in f[2]],
-                                 norm_decls([(C.wstr(x), dec_ctype(t)) for x, t in f[3]])] for f in m[3]),
+                                 norm_decls([(C.wstr(x), dec_ctype(t)) for x, t in f[3]]), sorted(dec_ctype(t) for t in f[4])] for f in m[3]),
+            "tuple_temporaries": sorted(dec_ctype(t) for t in m[6]),
         }
+        st["tuple_temporaries"] = st.get("tuple_temporaries", 0) + len(got["tuple_temporaries"]) + sum(len(f[4]) for f in got["functions"])
         if got != exp:
             first = next(k for k in got if got[k] != exp[k])
             ctx.disagree(f"decls: declared C types differ ({first})", body, exp, {k: got[k] for k in got})
@@ -1228,6 +1273,7 @@ WITNESSES = {
     "F-C02-boolop-typed-bool": {"body": "n = 0\nv = n or 5\nmon.write(v)\n", "loops": 0},
     "F-C02-stale-promotion-type": {"body": "mode = 2\nif mode > 1:\n    gain = 1.5\nelse:\n    gain = 0.5\ndef f(p):\n    if p > 1:\n        out = 1\n    else:\n        out = 2\n    return out\ndef g(p):\n    k = 0\n    while k < 2:\n        out = p * 0.5\n        k = k + 1\n    return out\na = f(3)\nb = g(3)\nmon.write(a)\nmon.write(b)\n", "loops": 0},
     "F-C02-param-declared-from-last-label": {"body": "def f(p):\n    q = p * 2\n    p = 1\n    return q\nx = 2.5\na = f(x)\nmon.write(a)\n", "loops": 0},
+    "F-C02-read-before-typed": {"body": "k = 0\nwhile k < 2:\n    if k > 0:\n        b = z\n        mon.write(b)\n    z = 2.5\n    k = k + 1\n", "loops": 0},
     "F-C02-widened-variant-overwritten": {"body": "def blend(a, b):\n    w = a * 2\n    a = a + b\n    return a + w\nx = 0.75\ny = 0.25\np = blend(x, y)\nq = blend(1, y)\nmon.write(p)\nmon.write(q)\n", "loops": 0},
 }
 
@@ -1333,17 +1379,230 @@ def part_d(ctx, stats):
     return len(progs) + values, [srcs[nfixed][len(HEADER):]]
 
 
+# --------------------------------------------------------------------------- part (e): control-flow scripts
+def ctl_plain(pre, main):
+    items = [("stmt", s_) for s_ in pre if s_[0] != "write"]
+    out = [HEADER]
+    render_block(pre, 0, out) if pre else None
+    if main:
+        out.append("while True:\n")
+        render_block(main, 1, out)
+    return "".join(out)
+
+
+def part_e(ctx, stats):
+    """scripts with if / elif / else, while, for at any depth + main loop (harness/c02_ctl.py CtlGen):
+    (1) the reference semantics exec_prog (Lang/StmtRef.v) along the path CPython actually takes = CPython's stores;
+    (2) script_guard (extracted) decides which programs the theorem covers; for those, every value the device prints must be
+        the value CPython holds (firmware under the mock core vs CPython)."""
+    rng = ctx.rng
+    n = 900 if ctx.tier == "thorough" else 60
+    progs, gens = [], []
+    fixed = [
+        # the demo of C02_decl_covers_script_nonvacuous with real conditions
+        ([("assign", "a", "3"), ("write", "a"), ("if", [("a > 1", [("assign", "x", "a * 2.5"), ("write", "x")])], [("assign", "x", "0.5"), ("write", "x")]),
+          ("assign", "k", "0"), ("while", "k < 2", [("assign", "y", "x + k"), ("write", "y"), ("assign", "k", "k + 1")]),
+          ("for", "i", "2", [("assign", "z", "i * 2"), ("write", "z")])],
+         [("assign", "r", "a + 1"), ("write", "r"), ("if", [("r > 3", [("assign", "w", "r * 0.5"), ("write", "w")])], None)], 2),
+        # the witness of C02_read_before_typed_refuted
+        ([("assign", "k", "0"), ("while", "k < 2", [("if", [("k > 0", [("assign", "b", "z"), ("write", "b")])], None), ("assign", "z", "2.5"),
+                                                    ("assign", "k", "k + 1")])], [], 0),
+        ([("assign", "a", "1"), ("assign", "a", "2.5"), ("write", "a")], [], 0),
+        # tuple assignments (the demo of C02_tuple_nonvacuous with a real loop) and narrower-into-wider stores
+        ([("tassign", ["a", "b"], ["1", "2.5"]), ("write", "a"), ("write", "b"), ("tassign", ["a", "x"], ["a + 1", "b * 2"]), ("write", "a"), ("write", "x"),
+          ("assign", "k", "0"), ("while", "k < 1", [("tassign", ["b", "x"], ["x", "b"]), ("write", "b"), ("write", "x"), ("assign", "k", "k + 1")])], [], 0),
+        ([("assign", "a", "2.5"), ("write", "a"), ("assign", "a", "1"), ("write", "a"), ("assign", "a", "3.5"), ("write", "a"), ("assign", "b", "3"),
+          ("if", [("b > 2", [("assign", "a", "b"), ("write", "a")])], None), ("assign", "a", "0.5"), ("assign", "x", "a * 2"), ("write", "x")], [], 0),
+        ([("if", [("1 > 2", [("assign", "x", "1")])], [("assign", "x", "2.5")]), ("write", "x")], [], 0),
+    ]
+    for pre, main, passes in fixed:
+        progs.append((pre, main, passes))
+        gens.append(None)
+    for _ in range(n):
+        g = CT.CtlGen(rng, RunGen)
+        progs.append(g.program())
+        gens.append(g)
+    srcs = [ctl_plain(pre, main) for pre, main, _ in progs]
+    instr = [CT.render_instr_script(pre, main, passes) for pre, main, passes in progs]
+    py = C.run_impl("c02_ctl_impl.py", {"cases": [{"src": s_, "calls": []} for s_ in instr]}, timeout=900)
+    st = {"programs": len(progs), "guard_true": 0, "guard_false": 0, "model_rejects": 0, "semantics_compared": 0, "semantics_events": 0,
+          "cpython_raises": {}, "value_oracle": {}, "values_compared": 0, "guard_true_with_nested_store": 0,
+          "reads_for_target_after_its_loop": 0, "deliberate_deviations": sum(g.deviations for g in gens if g),
+          "deviating_programs_inside_guard": 0, "shapes": {}}
+    for g in gens:
+        if g:
+            for k, v in g.shapes.items():
+                st["shapes"][k] = st["shapes"].get(k, 0) + v
+    guard = [None] * len(progs)
+    if ctx.exe:
+        gw = ctx.model([[10, MODEL_CTX, wire_block(pre), wire_block(main)] for pre, main, _ in progs])
+        sem_cases = []
+        for k, ((pre, main, passes), p) in enumerate(zip(progs, py)):
+            sem_cases.append([11, wire_block(pre), wire_block(main), [int(x) for x in p.get("oracle", [])]])
+        sw = ctx.model(sem_cases)
+        for k, ((pre, main, passes), p, gm, sm) in enumerate(zip(progs, py, gw, sw)):
+            if gm == [2] or sm == [2]:
+                ctx.disagree("ctl: model cannot decode the case (harness codec)", srcs[k][len(HEADER):], gm, sm)
+                continue
+            guard[k] = bool(gm[0]) and bool(gm[1])
+            st["guard_true" if guard[k] else "guard_false"] += 1
+            if not guard[k] and gens[k] is not None and not gens[k].deviations:
+                st["guard_false_without_a_deliberate_deviation"] = st.get("guard_false_without_a_deliberate_deviation", 0) + 1
+            if not gm[1]:
+                st["model_rejects"] += 1
+            if "exc" in p:
+                st["cpython_raises"][p["exc"]] = st["cpython_raises"].get(p["exc"], 0) + 1
+            if CT.reads_loopvar_after(pre) or CT.reads_loopvar_after(main):
+                st["reads_for_target_after_its_loop"] += 1          # outside the fragment of StmtRef.v (never generated)
+                continue
+            why = CT.compare_traces(sm, p, W, C)
+            st["semantics_compared"] += 1
+            st["semantics_events"] += len(p.get("trace", []))
+            if why is not None:
+                ctx.disagree("reference semantics (Lang/StmtRef.v exec_prog) vs CPython: " + why,
+                             {"script": srcs[k][len(HEADER):], "oracle": p.get("oracle"), "passes": passes}, sm, p)
+    # value oracle on the programs the extracted guard accepts
+    idx = [k for k in range(len(progs)) if guard[k]]
+    nontrivial = set()
+    if idx:
+        res = run_value_pairs([srcs[k] for k in idx], ["" for _ in idx], [progs[k][2] for k in idx])
+        for k, r in zip(idx, res):
+            st["value_oracle"][r["status"]] = st["value_oracle"].get(r["status"], 0) + 1
+            case = {"script": srcs[k], "input": "", "loops": progs[k][2]}
+            if gens[k] is not None and gens[k].deviations:
+                st["deviating_programs_inside_guard"] += 1
+            if r["status"] == "DIFF":
+                ctx.fail("a value on the device differs from the value CPython holds (control-flow script inside script_guard)", case,
+                         r["py"], {"first_difference": r["diff"], "firmware": r["fw"], "cpp": r["cpp"]}, key="value-diff-ctl")
+            elif r["status"] == "rejected":
+                ctx.disagree("ctl: the model parses the script (and the guard holds), the real transpiler rejects it", srcs[k][len(HEADER):], "accepted", r)
+            elif r["status"] == "fw-crash":
+                ctx.fail("firmware crashed", case, "rc 0", r, key="fw-crash-ctl")
+            elif r["status"] == "equal":
+                st["values_compared"] += r["n_values"]
+                if r["n_values"] >= 4:
+                    nontrivial.add(srcs[k])
+                if gens[k] is not None and gens[k].shapes["store_in_nested_block"]:
+                    st["guard_true_with_nested_store"] += 1
+                if gens[k] is not None and gens[k].shapes.get("narrower_store"):
+                    st["guard_true_with_a_narrower_into_wider_store"] = st.get("guard_true_with_a_narrower_into_wider_store", 0) + 1
+    stats["control_flow_scripts"] = st
+    stats["ctl_distinct_nontrivial"] = len(nontrivial)
+    return len(progs) + st["semantics_events"] + st["values_compared"], [srcs[len(fixed)][len(HEADER):]]
+
+
+# --------------------------------------------------------------------------- part (f): helper bodies
+def fn_plain(name, params, body, calls):
+    out = [HEADER, f"def {name}({', '.join(params)}):\n"]
+    render_block(body, 1, out)
+    top = []
+    for j, (sig, vals) in enumerate(calls):
+        args = []
+        for i, (k, v) in enumerate(zip(sig, vals)):
+            x = f"x{j}_{i}"
+            top.append(("assign", x, repr(v)))
+            args.append(x)
+        top.append(("assign", f"r{j}", f"{name}({', '.join(args)})"))
+        top.append(("write", f"r{j}"))
+    render_block(top, 0, out)
+    return "".join(out), top
+
+
+def part_f(ctx, stats):
+    """one generated helper per program (harness/c02_ctl.py FnBodyGen): assignments before returns, returns nested in if / for /
+    while, hoisted locals; called under 2-3 signatures.  (1) exec_block on the body from the bound parameters along CPython's
+    path = CPython's stores and returned value; (2) fn_guard (extracted) per call signature; when every signature is inside the
+    guard the device must print what CPython returns."""
+    rng = ctx.rng
+    n = 500 if ctx.tier == "thorough" else 36
+    progs = []
+    fixed_body = [("assign", "w", "p * 2"), ("if", [("w > 100", [("return", "w")])], None),
+                  ("for", "i", "2", [("if", [("i > 0", [("return", "q + 0.5")])], None), ("assign", "w", "w + i")]), ("return", "w")]
+    progs.append(("f", ["p", "q"], fixed_body, [(["int", "float"], [3, 0.5]), (["float", "float"], [2.5, 0.5])], None))
+    for _ in range(n):
+        g = CT.FnBodyGen(rng, RunGen)
+        name, params, body, calls = g.program()
+        progs.append((name, params, body, calls, g))
+    plain = [fn_plain(name, params, body, calls) for name, params, body, calls, _ in progs]
+    instr = [{"src": CT.render_instr_def(name, params, body), "calls": [[name, vals] for _, vals in calls]}
+             for name, params, body, calls, _ in progs]
+    py = C.run_impl("c02_ctl_impl.py", {"cases": instr}, timeout=900)
+    st = {"programs": len(progs), "variants": 0, "variants_inside_fn_guard": 0, "variants_unparsable": 0, "calls_compared": 0, "events_compared": 0,
+          "cpython_raises": {}, "programs_all_variants_inside": 0, "value_oracle": {}, "values_compared": 0,
+          "returns": sum(g.returns for *_x, g in progs if g), "returns_nested_in_a_block": sum(g.nested_returns for *_x, g in progs if g)}
+    all_in = [False] * len(progs)
+    if ctx.exe:
+        gcases, scases, owner = [], [], []
+        for k, ((name, params, body, calls, _), (src, top), p) in enumerate(zip(progs, plain, py)):
+            items = [("def", name, params, body)]
+            for j, (sig, vals) in enumerate(calls):
+                pre_top = []
+                for st_ in top:
+                    if st_[0] == "assign" and st_[1] == f"r{j}":
+                        break
+                    if st_[0] == "assign":
+                        pre_top.append(("stmt", st_))
+                gcases.append([12, MODEL_CTX, wire_items(items + pre_top), name, [enc_label(x) for x in sig]])
+                pc = p["calls"][j] if p.get("calls") and j < len(p["calls"]) else {"exc": p.get("exc", "setup")}
+                scases.append([13, wire_block(body), [int(x) for x in pc.get("oracle", [])],
+                               [[pn, W.enc_val(Fraction(v) if isinstance(v, float) else v)] for pn, v in zip(params, vals)]])
+                owner.append((k, j, pc))
+        gw = ctx.model(gcases)
+        sw = ctx.model(scases)
+        inside = {}
+        for (k, j, pc), gm, sm in zip(owner, gw, sw):
+            st["variants"] += 1
+            if gm == [2] or sm == [2]:
+                ctx.disagree("fn: model cannot decode the case (harness codec)", plain[k][0][len(HEADER):], gm, sm)
+                continue
+            inside.setdefault(k, []).append(bool(gm[0]))
+            st["variants_inside_fn_guard"] += bool(gm[0])
+            st["variants_unparsable"] += (not gm[1])
+            if "exc" in pc:
+                st["cpython_raises"][pc["exc"]] = st["cpython_raises"].get(pc["exc"], 0) + 1
+            why = CT.compare_traces(sm, pc, W, C)
+            st["calls_compared"] += 1
+            st["events_compared"] += len(pc.get("trace", []))
+            if why is not None:
+                ctx.disagree("reference semantics (Lang/StmtRef.v exec_block) vs CPython on a helper body: " + why,
+                             {"script": plain[k][0][len(HEADER):], "call": progs[k][3][j], "oracle": pc.get("oracle")}, sm, pc)
+        for k, v in inside.items():
+            all_in[k] = all(v) and len(v) == len(progs[k][3])
+    idx = [k for k in range(len(progs)) if all_in[k]]
+    st["programs_all_variants_inside"] = len(idx)
+    nontrivial = set()
+    if idx:
+        res = run_value_pairs([plain[k][0] for k in idx], ["" for _ in idx], [0 for _ in idx])
+        for k, r in zip(idx, res):
+            st["value_oracle"][r["status"]] = st["value_oracle"].get(r["status"], 0) + 1
+            case = {"script": plain[k][0], "input": "", "loops": 0}
+            if r["status"] == "DIFF":
+                ctx.fail("a helper returns another value on the device than under CPython (every call signature inside fn_guard)", case,
+                         r["py"], {"first_difference": r["diff"], "firmware": r["fw"], "cpp": r["cpp"]}, key="value-diff-fnbody")
+            elif r["status"] == "fw-crash":
+                ctx.fail("firmware crashed", case, "rc 0", r, key="fw-crash-fnbody")
+            elif r["status"] == "equal":
+                st["values_compared"] += r["n_values"]
+                if r["n_values"] >= 2:
+                    nontrivial.add(plain[k][0])
+    stats["helper_bodies"] = st
+    stats["fnbody_distinct_nontrivial"] = len(nontrivial)
+    return len(progs) + st["events_compared"] + st["values_compared"], [plain[1][0][len(HEADER):]]
+
+
 def run(ctx: C.Ctx):
     stats = {}
     n = part_a(ctx, stats)
     nb, samples_b = part_b(ctx, stats)
     nc, samples_c = part_c(ctx, stats)
     nd, samples_d = part_d(ctx, stats)
+    ne, samples_e = part_e(ctx, stats)
+    nf, samples_f = part_f(ctx, stats)
     ctx.coverage.update({
-        "evaluations": n + nb + nc + nd,
-        "distinct_nontrivial": stats.get("infer_distinct_nontrivial", 0) + stats.get("decl_distinct_nontrivial", 0) + stats.get("value_distinct_nontrivial", 0) + stats.get("function_distinct_nontrivial", 0),
+        "evaluations": n + nb + nc + nd + ne + nf,
+        "distinct_nontrivial": stats.get("infer_distinct_nontrivial", 0) + stats.get("decl_distinct_nontrivial", 0) + stats.get("value_distinct_nontrivial", 0) + stats.get("function_distinct_nontrivial", 0) + stats.get("ctl_distinct_nontrivial", 0) + stats.get("fnbody_distinct_nontrivial", 0),
         "distribution": stats,
-        "samples": samples_b[:1] + samples_c + samples_d,
+        "samples": samples_b[:1] + samples_c + samples_d + samples_e + samples_f,
         "rule": ("(a) _infer_expr_type: ~115 fixed boundary expressions (every clause of the model, with/without ctx, with generated var_types / "
                  "functions / aliases / device-name sets) + seeded random typed expressions (depth 1-4, all node kinds incl. calls to user functions, "
                  "methods, lists, subscripts, f-strings, unsupported nodes) + the shared Lang generator; compared: label, ValueError, and the MUTATED "
@@ -1375,7 +1634,22 @@ def run(ctx: C.Ctx):
                  "variables of one numeric kind (top level / main loop).  (d) also draws parameters widened at body level depending on another parameter / "
                  "local / literal (`p = p + q`, `p += q`, `p = p * 0.5`): requested signatures reach their variant through the signature alias, call "
                  "sites shuffled so that the final signature is met before and after the widened one (both counted); comprehensions inside helper "
-                 "bodies shadowing parameters / local accumulators; 5 fixed class representatives."),
+                 "bodies shadowing parameters / local accumulators; 5 fixed class representatives.  "
+                 "(b) now also draws tuple assignments (new / old / repeated names, swaps, an extra value; column 0, nested blocks, defs, main "
+                 "loop; the `__tmp_assign_k` temporaries are compared as a multiset of C types per scope) and calls of user functions from "
+                 "INSIDE function bodies (earlier helpers under new signatures, later helpers, recursion).  "
+                 "(e) control-flow scripts (harness/c02_ctl.py CtlGen: if / elif / else with and without hoisted names, while with a counter, "
+                 "for, augmented assignments, stores in nested blocks, main loop; a few per cent deliberately break the guard: a store of "
+                 "another kind, disagreeing branches, a name read before the line that types it): (e1) the script is rendered INSTRUMENTED "
+                 "and run under CPython, which records every decision (branch index, passes of a while, length of a range) in the order the "
+                 "model's oracle is consumed and every store with its value; exec_prog (extracted) is run along that oracle and must produce "
+                 "the same trace (names, kinds, exact values); (e2) script_guard (extracted) decides which programs the theorem covers; for "
+                 "those, firmware under the mock core vs CPython, every written value compared - a difference is reported as a violation.  "
+                 "(f) one generated helper per program (FnBodyGen: locals, if / for / while blocks, returns at any depth, hoisted locals, "
+                 "augmented assignments) called under 2-3 signatures with boundary arguments: (f1) exec_block on the body from the bound "
+                 "parameters along CPython's recorded path = CPython's stores and returned value; (f2) fn_guard (extracted) per call "
+                 "signature in the parser state before the call; when every signature is inside, firmware vs CPython on the whole program. "
+                 "non-trivial for (e)/(f) = guard-accepted programs whose firmware/CPython comparison covers >= 4 (>= 2) values."),
         "guard": ("expressions: Lang/InferGuard.v guard (no string contagion onto a numeric name, numeric operands, `/` and `**` only with a float "
                   "operand, no unary minus on a bool label, and/or only on bool labels, conditional expression with equal or numeric labels, abs/min/max "
                   "on int/bool labels, uniform or numeric list elements, subscripts of list labels, no tuples). programs (theorem): flat_guard = every "
@@ -1394,7 +1668,18 @@ def run(ctx: C.Ctx):
                   "alike (F-C02-widened-variant-overwritten); every call selects, by C++ overload resolution among the variants that can be "
                   "emitted, the variant the transpiler means (an ambiguous overload does not compile: C06's subject); a Name passed to a helper "
                   "has a label equal to its declared type.  Comprehensions: one generator over range(n), no filter, element int/float/bool, "
-                  "the list is only read by a subscript in mon.write; theorem guard rhs_guard = guard on the element under var_types[target] = int."),
+                  "the list is only read by a subscript in mon.write; theorem guard rhs_guard = guard on the element under var_types[target] = int.  "
+                  "Control flow (theorems C02_decl_covers_script_partial / C02_function_body_covers_partial, oracles (e)/(f)): script_guard / "
+                  "fn_guard of Lang/StmtRef.v, evaluated by the EXTRACTED model: with L the table of DECLARED labels of the scope (the label of "
+                  "the store / hoist that declares each name), every store (x = e, x op= e, x = [comprehension], each target of a tuple "
+                  "assignment) has e inside the expression guard under the var_types G the transpiler holds at that line; its value is covered: "
+                  "every name e reads has in G exactly its declared label (not narrowed, not read before the line that types it) or typing e "
+                  "under L gives the same label; the inferred label is L(x) for a declaring store and AT MOST L(x) (bool < int < float) for a "
+                  "declared x (narrower into wider); x op= e has x declared and op is not @; tuple assignments have as many values as names "
+                  "and store exactly the declared labels; a name hoisted out of an if / a loop ends its block with its declared label and has "
+                  "no other C type in the shared promotion table (hoist_ok, promo_ok); return expressions have a scalar label; for function "
+                  "bodies every parameter ends the body with its signature label and the body calls no user function (ucf_block). "
+                  "Reference semantics: no break/continue, the target of a for is unbound after its loop."),
         "unmodelled": [
             "list comprehensions nested inside another operator (len([...]), [...][0], f([...])) stay EOther in Lang/PyAst.v and are labelled int by the "
             "model (the real code labels them list[...]); range() with 2 or 3 arguments and filtered comprehensions; only right-hand sides that ARE a "
@@ -1402,26 +1687,33 @@ def run(ctx: C.Ctx):
             "the constant environment (vars) that _to_c_expr brackets together with var_types around a comprehension target is C03's subject; here it "
             "only enters as an input of correspondence (a') (names bound to constants of every truthiness)",
             "C++ overload resolution between emitted variants (harness/c02_fngen.cxx_pick keeps generated calls unambiguous); it is not part of the Gallina model",
-            "calls to user functions from inside function bodies (recursion, helper calling helper: the re-entrant _ensure_function_variant with its "
-            "_refreshing_functions set) - the statement model runs function bodies with the static function table; covered only by oracles (c) "
-            "(template `twice`) and (d) (generated helpers calling earlier helpers)",
-            "C02_function_result_covers_partial is proved for bodies made of (if-guarded) return statements; returns nested deeper, after assignments "
-            "or inside loops are covered by correspondence (b) and oracle (d)",
-            "tuple assignment / swap temporaries (not in the Gallina model; oracle (c) draws them at top level / in the main loop), try/except bodies, list variables at statement level (append, element assignment), "
-            "function_param_types carried over between re-parses of the same def",
+            "the VALUE theorems about function bodies (C02_function_body_covers_partial, C02_function_result_covers_partial) are stated for "
+            "bodies that call no user function (ucf_block): the reference expression semantics (Lang/PySem.v) has no user-function calls; a "
+            "helper calling a helper is inside the DECLARATION model (parse_function_step: on-demand variants, _refreshing_functions, fuel 24 "
+            "for the nesting depth of on-demand parses) and tied to the code by correspondence (b) and oracles (c) (template `twice`) and (d)",
+            "reference statement semantics (Lang/StmtRef.v): break / continue, try/except, the value of a for target after its loop (in the C++ it "
+            "is scoped to the loop; such a read is an error of the reference execution), reads of never-assigned names; conditions and loop "
+            "bounds are not evaluated by the model - the path is an oracle (all paths are covered by the theorems; the correspondence follows "
+            "the path CPython takes)",
+            "a new name declared at column 0 by a tuple assignment that also re-assigns an old name is emitted as a LOCAL of setup() "
+            "(not a global); the model lists it with the globals (its scope is C05/C06's subject, its type is compared)",
+            "try/except bodies, list variables at statement level (append, element assignment), "
+            "function_param_types carried over between re-parses of the same def; narrower-into-wider stores through a tuple assignment or a "
+            "comprehension (the guard demands the exact declared label there)",
             "_to_c_expr failures (untranslatable right-hand sides abort the parse before typing) - generators only emit translatable expressions",
             "the annotated-return override (override_return) is modelled and refuted at model level, but is unreachable through parse(): RE_DEF does not "
             "match a header with `-> T` and _parse_function rebuilds the header without it",
             "conditions, loop bounds and mon.write arguments are assumed to have no typing effect (validated by (b): they are present in the programs)",
             "C int width (16-bit AVR overflow), float32 rounding beyond the 2 printed decimals, IEEE specials",
-            "Python statement semantics for branches/loops/functions: the declaration theorem is proved for straight-line top-level programs only; "
-            "control flow is covered by correspondence (b) and oracle (c)",
+            "user-function calls in scripts covered by C02_decl_covers_script_partial (script_guard rejects def items; the theorem is for "
+            "scripts without helpers, helpers are covered per variant by C02_function_body_covers_partial)",
         ],
         "trusted_base": C.COMMON_TRUSTED + [
             "harness/gen/c02_infer.py (regenerates coq/Gen/InferTables.v: _BUILTIN_CALL_RETURN_TYPES, annotation labels; fail-closed)",
             "coq/Lang/PySem.v as the meaning of Python expressions (validated against CPython eval by harness/pysem_check.py)",
             "harness/c02_fngen.py (generator, the abstract kind interpreter that keeps generated helper programs inside the guard, cxx_pick: a "
             "three-rank model of C++ overload resolution used only to DROP generated programs)",
+            "harness/c02_ctl.py + harness/impl/c02_ctl_impl.py (generators; the instrumented rendering that makes CPython record its decisions and stores)",
             "harness/pyast_wire.py + label/program codecs in harness/props/c02.py; regex extraction of declaration lines from the emitted sketch (harness/impl/c02_impl.py cpp_decls)",
             "mock Arduino core (mock/) + g++ -O0 as 'the device'; CPython 3.12 + harness/impl/pyrun_impl.py as 'what Python holds'",
             "value-level comparison of Serial lines (same_value_line): bool = 0/1, numbers to 0.0051 when the device prints decimals",
@@ -1430,5 +1722,6 @@ def run(ctx: C.Ctx):
     ctx.assumptions += [
         "floats are exact rationals in the models; generated float literals are dyadic with small denominators",
         "C int is unbounded in the models (no-overflow guard of C01); generated values stay far below 2^31",
-        "theorems are about the Gallina models Lang/Infer.v and Lang/Decl.v; their distance from parser.py is bounded by correspondences (a) and (b)",
+        "theorems are about the Gallina models Lang/Infer.v, Lang/Decl.v and Lang/StmtRef.v; their distance from parser.py / CPython is bounded by correspondences (a), (b), (e1), (f1)",
+        "a script's conditions and loop bounds may evaluate to anything: the covering theorems quantify over every oracle",
     ]
